@@ -91,12 +91,56 @@ def run_generic(ctx, prop, kinds):
     return dict(proof=proof, violations=out_v, broken_obligation=broken, coverage=cov, wall_s=time.time() - t0)
 
 
+def history_failures(rec):
+    """C02 on a pool used for several calls: every call's tasks executed exactly once, by the call's own function"""
+    if rec['status'] != 'done' or not rec['result']:
+        return f"scenario did not finish: {rec['status']}"
+    for c, o in zip(rec['scenario']['calls'], rec['result']['calls']):
+        if c.get('kind') == 'apply_batch':
+            msg = S.check_apply_batch(c, o)
+        elif 'n' in c:
+            msg = (None if o.get('outcome') == 'ok' else f"call base={c['base']} raised {o['exc']['type']}: {o['exc']['args'][:120]}") \
+                or S.check_own_function(c, rec)
+        else:
+            msg = None
+        if msg:
+            return msg
+    return None
+
+
 def run(ctx):
-    return run_generic(ctx, 'C02', ('map', 'map_unordered', 'imap', 'imap_unordered'))
+    res = run_generic(ctx, 'C02', ('map', 'map_unordered', 'imap', 'imap_unordered'))
+    rng = random.Random(ctx['seed'] + 202)
+    sms = ['fork', 'threading', 'forkserver', 'spawn']
+    scens = [S.gen_history(rng, k, ctx['tier'], sms) for k in range(16 if ctx['tier'] == 'quick' else 150)]
+    recs = runner.run_many(scens, 'c02_hist', jobs=10)
+    n = 0
+    for rec in recs:
+        msg = history_failures(rec)
+        n += 1
+        if msg:
+            again = runner.run_many([rec['scenario']] * 2, 'c02_hist_re', jobs=2)
+            if any(history_failures(r) for r in again):
+                res['violations'].append(dict(found_input=True, what=msg, signature='C02:history',
+                                              replay=dict(kind='scenario', scenario=rec['scenario'], got=msg, history=True)))
+                break
+    res['coverage']['history_scenarios'] = n
+    res['coverage']['evaluations'] += n
+    res['coverage']['rule'] = res['coverage'].get('rule', '') + (
+        "; plus histories on one pool (other functions and parameters, the same call again after others, kept-alive workers, "
+        "lifespans, setters, apply batches in between): every call's tasks are executed exactly once by the call's OWN function "
+        "(the user functions log which function was entered)")
+    return res
 
 
 def replay(payload):
     recs = runner.run_many([payload['scenario']], 'replay', jobs=1, keep=True)
+    if payload.get('history') and payload['property'] == 'C02':
+        msg = history_failures(recs[0])
+        print("status:", recs[0]['status'])
+        if msg:
+            print("oracle:", msg)
+        return 1 if msg else 0
     prop = payload['property']
     v, h, n_ok, _, _ = analyse(recs, prop)
     print("status:", recs[0]['status'])
